@@ -425,7 +425,8 @@ def fam_files(case):
                lambda fn, fmt: base.save(fn, fmt),
                lambda ext: _fname("net", ext), sp,
                explain=_explained_by_fromigraph(J, sp))
-    _fold_same_as(J, _reference_failures(sp, base),
+    reffail = _reference_failures(sp, base)
+    _fold_same_as(J, reffail,
                   "round-trip failures the saved object shows already "
                   "(reported by the paths family)")
     # history: a saved object whose node weights are changed afterwards and
@@ -452,6 +453,9 @@ def fam_files(case):
             v["key"].replace("save,node_weights=,save+Load",
                              "save+Load") not in before
             and "save,node_weights=,save+Load[gml" not in v["key"])]
+        _fold_same_as(J, {k for k in reffail if ":node_weights:" not in k},
+                      "round-trip failures the saved object shows already "
+                      "(reported by the paths family)")
     return J.result()
 
 
@@ -613,9 +617,10 @@ def fam_spatial(case):
     from pyunicorn.core import Network
     J = _spatial(case)
     sp = J.sp
-    ref = Network(adjacency=sp["A"], directed=sp["directed"],
-                  silence_level=3)
-    _fold_same_as(J, _reference_failures(sp, ref, groups=("structure",)),
+    ref = _decorate(Network(adjacency=sp["A"], directed=sp["directed"],
+                            silence_level=3), sp)
+    _fold_same_as(J, _reference_failures(sp, ref,
+                                         groups=("structure", "attrs")),
                   "failures the plainly constructed Network shows already "
                   "(reported by the paths family)")
     return J.result()
